@@ -851,7 +851,9 @@ Definition pm_conn (e : env) (tcp : option nat) (m2 : message) (x : ctx) : messa
                       let '(m'', tid) := mtry s_client_transaction m' in
                       match tid with
                       | Ok (Some t) =>
-                          let '(p1, rk) := get_transport (now_s e) (s2b "tcp") host port t (x_p x) in
+                          let host_r := if fx_resolved_key (e_fx e)
+                                        then match get_ip (e_cfg e) host with Some i => i | None => host end else host in
+                          let '(p1, rk) := get_transport (now_s e) (s2b "tcp") host_r port t (x_p x) in
                           match rk with
                           | Ok key => (m'', Ok (set_primary key (PConn c (now_s e + 3600)) p1))
                           | _ => (m'', Ok p1)
